@@ -4,6 +4,7 @@
 #  patch, (4) the existing suite passes with the patch. Results in /verif/seeded/<id>/confirm.txt
 export GOFLAGS=-mod=mod GOPROXY=off GOSUMDB=off GOTOOLCHAIN=local
 for d in "$@"; do
+  d=$(readlink -f $d)
   id=$(basename $d)
   out=$d/confirm.txt
   wt=/tmp/wt-confirm-$id
